@@ -30,6 +30,7 @@ def run(rep):
             o.witness = sc.replay_production(o, 'proc')
         rep.add(o)
     terminal_table_obligations(rep)
+    sc.lexical_independence(rep, 'C17')
     # the statements after the procedure start from the reset state (no flag or level survives the boundary)
     pc = sc._pc('C17')
     for k in ('trivia', 'other'):
